@@ -14,6 +14,7 @@ for d in /verif/seeded/C*/; do
   # check of a neighbouring property only, e.g. a cache defect that needs two clients)
   checks=$(python3 -c "import json;m=json.load(open('$d/meta.json'));print(' '.join(m.get('check_with') or [m['property']]))")
   pf=$d/patch.diff; [ -f $d/patch-rebased.diff ] && pf=$d/patch-rebased.diff
+  if python3 -c "import json,sys;sys.exit(0 if json.load(open('$d/meta.json')).get('neutralised_by') else 1)"; then echo "$id | $prop | neutralised by a later engine fix (see meta.json); not run" >> $out; continue; fi
   cd /repo
   if ! git apply --check "$pf" 2>/dev/null; then echo "$id | $prop | patch does not apply to the current tree" >> $out; continue; fi
   git apply "$pf"
